@@ -642,12 +642,14 @@ class DCM(np.ndarray):
                [-0.29531805, -0.5473806 ,  0.        ]])
 
         """
-        trace_R = self.A.trace()
-        if np.isclose(trace_R, 3.0):
+        # sin(theta) from the skew-symmetric part, so that theta is accurate
+        # for arbitrarily small angles (arccos of the trace is not)
+        sin_theta = 0.5*np.linalg.norm([self.A[2, 1]-self.A[1, 2], self.A[0, 2]-self.A[2, 0], self.A[1, 0]-self.A[0, 1]])
+        if sin_theta == 0.0:
             return np.zeros((3, 3))
-        theta = np.arccos((self.A.trace()-1)/2)
+        theta = np.arctan2(sin_theta, (self.A.trace()-1)/2)
         nom = theta * (self.A.T - self.A)
-        denom = 2*np.sin(theta)
+        denom = 2*sin_theta
         logR = nom / denom
         return logR
 
